@@ -88,6 +88,8 @@ pub trait AOps: Archetype + Sized {
     fn clear_ev(w: &mut VW);
     fn snapshot(w: &mut VW, path: u8) -> Vec<Row>;
     fn dump(w: &VW) -> gecs::verif::Dump;
+    /// `dst.<arch>.clone_from(&src.<arch>)` (Clone::clone_from at archetype level)
+    fn arch_clone_from(dst: &mut VW, src: &VW);
     fn preset(w: &mut VW, slot: u32, arch: u32);
 }
 
@@ -250,7 +252,23 @@ macro_rules! aops {
             #[allow(unused_mut)]
             fn snapshot(w: &mut VW, path: u8) -> Vec<Row> {
                 let mut out: Vec<Row> = Vec::new();
-                match path % 11 {
+                match path % 13 {
+                    // partially consumed iterators finished by internal iteration (fold-based consumers)
+                    11 => {
+                        let mut it = w.$f.iter();
+                        if let Some((e, $($c),*)) = it.next() { out.push((tok(*e), vec![$(rd($c)),*])); }
+                        it.for_each(|(e, $($c),*)| out.push((tok(*e), vec![$(rd($c)),*])));
+                    }
+                    12 => {
+                        let n = w.$f.iter_mut().count();
+                        if n != w.$f.len() { reg::with(|r| r.anomalies.push(format!("iter_count:{}:{}", stringify!($A), n))); }
+                        if let Some((e, $($c),*)) = w.$f.iter().next() { out.push((tok(*e), vec![$(rd($c)),*])); }
+                        let mut it = w.$f.iter_mut().peekable();
+                        let _ = it.peek().is_some();
+                        it.skip(1).fold((), |_, (e, $($c),*)| out.push((tok(*e), vec![$(rd(&*$c)),*])));
+                        let last = w.$f.iter().last().map(|x| tok(*x.0));
+                        if last != w.$f.entities().last().map(|e| tok(*e)) { reg::with(|r| r.anomalies.push(format!("iter_last:{}", stringify!($A)))); }
+                    }
                     9 => { ecs_iter_destroy!(w, |e: &Entity<$A>, $($c: &$T),*| { out.push((tok(*e), vec![$(rd($c)),*])); EcsStep::Continue }); out.reverse(); }
                     10 => { ecs_iter_destroy!(w, |e: &Entity<$A>, $($c: &$T),*| { out.push((tok(*e), vec![$(rd($c)),*])); }); out.reverse(); }
                     0 => { ecs_iter!(w, |e: &Entity<$A>, $($c: &$T),*| { out.push((tok(*e), vec![$(rd($c)),*])); }); }
@@ -299,6 +317,7 @@ macro_rules! aops {
                 out
             }
             fn dump(w: &VW) -> gecs::verif::Dump { w.$f.data.verif_dump() }
+            fn arch_clone_from(dst: &mut VW, src: &VW) { dst.$f.clone_from(&src.$f) }
             #[cfg(feature = "events")]
             fn ev(w: &VW) -> (Vec<Tok>, Vec<Tok>) {
                 (w.$f.iter_created().map(|e| tok(*e)).collect(), w.$f.iter_destroyed().map(|e| tok(*e)).collect())
